@@ -314,13 +314,22 @@ func c01StopPoint(c *Ctx) {
 			if cs.In.Common().StaticCallee() != h || cs.Fn != f.SSA {
 				continue
 			}
-			args := cs.X.Args
-			sel, stop := args[3], args[len(args)-1]
+			// (selector and stop CID picked by type: the selector node, and the last CID — positional parameters
+			// or the fields of a parameter object alike)
+			slots := c.SlotArgs(cs)
+			sel, stop := slotOf(slots, "go-ipld-prime/datamodel.Node", 0), slotOf(slots, "go-cid.Cid", -1)
 			key := f.Name + " › stop CID ↔ selector stop link"
+			if sel == nil || stop == nil || slotOf(slots, "go-cid.Cid", 0) == stop {
+				c.Unk("C01.c-one-stop-point", key, cs.In.Pos(), "the per-publisher sync routine is not given a selector node and a stop CID (after the root CID)")
+				continue
+			}
 			sb, isBuilt := Match(Call("dagsync.ExploreRecursiveWithStopNode", Any(), Any(), Bind("lnk")), sel)
 			if !isBuilt {
 				// entries syncs: fixed selectors, no stop link; the stop CID must be undefined
 				_, undef := Match(Op("global", "go-cid.Undef"), stop)
+				if t := strip(stop); t != nil && t.Op == "const" && strings.HasPrefix(t.Name, "zero:") {
+					undef = true // the zero CID is cid.Undef
+				}
 				c.Check(undef, "C01.c-one-stop-point", key, cs.In.Pos(), "no stop link in the selector and an undefined stop CID", "a stop CID is given although the selector carries no stop link: "+stop.String())
 				continue
 			}
@@ -479,7 +488,7 @@ func c01SegmentLoop(c *Ctx) {
 		{"hook-signalled failure", errTest(EqNil(Field("err", Any()))), false},
 		{"no next CID", EqNil(nextCid), true},
 		{"next CID undefined", Call("cid.Cid).Equals", nextCid, Op("global", "go-cid.Undef")), true},
-		{"stop CID defined", Bin("==", Op("param", ""), Op("global", "go-cid.Undef")), true}, // handled specially below
+		{"stop CID defined", Bin("==", ParamSlot(), Op("global", "go-cid.Undef")), true}, // handled specially below
 	}
 	var testBlocks []*ssa.BasicBlock
 	for i, t := range tests {
@@ -553,10 +562,10 @@ func c01SegmentLoop(c *Ctx) {
 				continue
 			}
 			cx, val := normFact(c.E(iff.Cond), true)
-			if _, m := Match(Bin("==", nextCid, Op("param", "")), cx); !m {
+			if _, m := Match(Bin("==", nextCid, ParamSlot()), cx); !m {
 				continue
 			}
-			if _, g := c.GuardedB(b, Bin("==", Op("param", ""), Op("global", "go-cid.Undef")), false); !g {
+			if _, g := c.GuardedB(b, Bin("==", ParamSlot(), Op("global", "go-cid.Undef")), false); !g {
 				continue
 			}
 			exit := b.Succs[0]
@@ -630,6 +639,8 @@ func c01SegmentLoop(c *Ctx) {
 			case x == nil || d > 4:
 				return false
 			case x.Op == "param":
+				return true
+			case ParamSlot()(x, nil):
 				return true
 			case x.V == ssa.Value(nd):
 				return true
@@ -778,7 +789,11 @@ func c01Choice(c *Ctx) {
 		if hcall == nil {
 			continue
 		}
-		sb, isBuilt := Match(Call("dagsync.ExploreRecursiveWithStopNode", Bind("limit"), Any(), Bind("lnk")), hcall.X.Args[3])
+		selArg := slotOf(c.SlotArgs(*hcall), "go-ipld-prime/datamodel.Node", 0)
+		if selArg == nil {
+			continue
+		}
+		sb, isBuilt := Match(Call("dagsync.ExploreRecursiveWithStopNode", Bind("limit"), Any(), Bind("lnk")), selArg)
 		if !isBuilt {
 			continue
 		}
@@ -1088,25 +1103,16 @@ func c01StockHookAndVariants(c *Ctx) {
 	// helpers and parameter structs the selector and the segment size travel through on the way)
 	n := 0
 	if hr := c.Role("dagsync.handle"); hr != nil {
-		ps := hr.Signature.Params()
-		selIdx, segIdx := -1, -1
-		for i := 0; i < ps.Len(); i++ {
-			switch ts := types.Unalias(ps.At(i).Type()).String(); {
-			case strings.HasSuffix(ts, "go-ipld-prime/datamodel.Node"):
-				selIdx = i
-			case ts == "int64":
-				segIdx = i
-			}
-		}
 		for _, f := range c.Funcs(dagsyncPkg) {
-			if selIdx < 0 || segIdx < 0 || f.SSA.Object() == nil || !f.SSA.Object().Exported() {
+			if f.SSA.Object() == nil || !f.SSA.Object().Exported() {
 				continue
 			}
 			for _, st := range c.CallsInl(f.SSA, CallTo(hr), 3) {
-				if len(st.X.Args) != ps.Len()+1 {
+				slots := c.SlotArgsEnv(st.CallSite, st.Env)
+				selArg, segArg := slotOf(slots, "go-ipld-prime/datamodel.Node", 0), slotOf(slots, "int64", 0)
+				if selArg == nil || segArg == nil {
 					continue
 				}
-				selArg, segArg := st.X.Args[selIdx+1], st.X.Args[segIdx+1]
 				unlimited := selArg.Contains(func(y *X) bool {
 					return y.Op == "field" && (y.Name == "selectorAll" || y.Name == "selectorOne") && fieldOwner(y) == "Subscriber"
 				})
@@ -1324,8 +1330,12 @@ type syncPoint struct {
 }
 
 func c01SyncPoint(c *Ctx, f *Fn, hcall CallSite, limit, lnk *X) syncPoint {
-	args := hcall.X.Args
-	sp := syncPoint{fn: f, target: hcall.In.Block(), pos: hcall.In.Pos(), lnk: lnk, next: args[2], stop: args[len(args)-1], limit: limit}
+	slots := c.SlotArgs(hcall) // (root and stop CID: the first and the last CID handed over, positionally or in a parameter object)
+	sp := syncPoint{fn: f, target: hcall.In.Block(), pos: hcall.In.Pos(), lnk: lnk, next: slotOf(slots, "go-cid.Cid", 0), stop: slotOf(slots, "go-cid.Cid", -1), limit: limit}
+	if sp.next == nil || sp.stop == nil {
+		args := hcall.X.Args
+		sp.next, sp.stop = args[2], args[len(args)-1]
+	}
 	call, idx := helperCall(lnk)
 	if call == nil {
 		return sp
